@@ -167,6 +167,7 @@ def tx_deser(tx_: bytes, include_raw: bool = False) -> typing.Tuple[dict, bytes]
                         txin(
                             outpoint(bytes.fromhex(ti["txid"]), ti["vout"]),
                             bytes.fromhex(ti["scriptsig"]),
+                            sequence=bytes.fromhex(ti["sequence"]),
                         )
                         for ti in deserialized_tx["txins"]
                     ],
